@@ -833,6 +833,7 @@ public:
     QString arg(const QString &a) const { const QString *p[1] = { &a }; return argN(p, 1); }
     QString arg(const QString &a, const QString &b) const { const QString *p[2] = { &a, &b }; return argN(p, 2); }
     QString arg(const QString &a, const QString &b, const QString &c) const { const QString *p[3] = { &a, &b, &c }; return argN(p, 3); }
+    QString arg(const QString &a, const QString &b, const QString &c, const QString &d) const { const QString *p[4] = { &a, &b, &c, &d }; return argN(p, 4); }
     QString arg(int v) const { return arg(number(v)); }
     QString arg(uint v) const { return arg(number(v)); }
     QString arg(qlonglong v) const { return arg(number(v)); }
@@ -996,6 +997,14 @@ public:
     const_iterator end() const { return const_iterator(this, m_n); }
     const_iterator cbegin() const { return const_iterator(this, 0); }
     const_iterator cend() const { return const_iterator(this, m_n); }
+    typedef std::reverse_iterator<iterator> reverse_iterator;
+    typedef std::reverse_iterator<const_iterator> const_reverse_iterator;
+    reverse_iterator rbegin() { return reverse_iterator(end()); }
+    reverse_iterator rend() { return reverse_iterator(begin()); }
+    const_reverse_iterator rbegin() const { return const_reverse_iterator(end()); }
+    const_reverse_iterator rend() const { return const_reverse_iterator(begin()); }
+    const_reverse_iterator crbegin() const { return const_reverse_iterator(end()); }
+    const_reverse_iterator crend() const { return const_reverse_iterator(begin()); }
     const_iterator constBegin() const { return cbegin(); }
     const_iterator constEnd() const { return cend(); }
     // element writes use constant indices under guards (a store at a symbolic index into an array of structs
